@@ -93,7 +93,9 @@ theorem count_spec (n : Nat) : ∀ (m k : Nat) (b : BDD), k + m = n + 1 → OrdA
   | zero =>
     intro k b hk ho hs
     cases b with
-    | leaf x => simp [cntFrom_leaf, varU, count, hk]
+    | leaf x =>
+      have : n + 1 - k = 0 := by omega
+      simp [cntFrom_leaf, varU, count, this]
     | node v l h => have := ho.1; have := hs.1; omega
   | succ m ih =>
     intro k b hk ho hs
@@ -160,7 +162,7 @@ theorem idxOf_lt_of_sorted : ∀ {vs : List Nat}, vs.Pairwise (· < ·) → ∀ 
       · omega
       · have h1 : ¬ (x == a) = true := by simp; omega
         have h2 : ¬ (x == b) = true := by simp; omega
-        simp only [h1, h2, if_false]
+        simp only [h1, h2]
         have := idxOf_lt_of_sorted hp.2 a ha b hb hab
         simpa using this
 
@@ -180,7 +182,128 @@ theorem satCountBDD_spec {vs : List Nat} {b : BDD} (hvs : vs.Pairwise (· < ·))
   funext bits
   rw [eval_renumber]
   congr 1
-  funext v
-  simp [envFrom, envOf]
+
+/-! ### labeling -/
+
+/-- lexicographic order on rows, `false` before `true`. -/
+abbrev RowLt : List Bool → List Bool → Prop := List.Lex (fun a b => a < b)
+
+theorem mem_labelRows {n : Nat} : ∀ (vs : List Nat) (b : BDD), OrdAbove n b → Reduced b → vs.Nodup →
+    ∀ row, row ∈ labelRows vs b ↔ ∃ ρ, b.eval ρ = true ∧ row = vs.map ρ := by
+  intro vs
+  induction vs with
+  | nil =>
+    intro b ho hr _ row
+    simp only [labelRows, List.map_nil]
+    split
+    · next e => subst e; simp [eval]
+    · next ne =>
+      have := (ne_leaf_false_iff ho hr).1 ne
+      simp only [List.mem_singleton]
+      constructor
+      · rintro rfl; obtain ⟨ρ, hρ⟩ := this; exact ⟨ρ, hρ, rfl⟩
+      · rintro ⟨_, _, rfl⟩; rfl
+  | cons v vs ih =>
+    intro b ho hr hnd row
+    rw [List.nodup_cons] at hnd
+    simp only [labelRows]
+    split
+    · next e => subst e; simp [eval]
+    · have ih0 := ih (restrict v false b) (ordAbove_restrict _ _ _ _ ho) (reduced_restrict _ _ _ hr) hnd.2
+      have ih1 := ih (restrict v true b) (ordAbove_restrict _ _ _ _ ho) (reduced_restrict _ _ _ hr) hnd.2
+      have hmap : ∀ (ρ : Nat → Bool) x, vs.map (upd ρ v x) = vs.map ρ := fun ρ x =>
+        List.map_congr_left (fun w hw => upd_ne (fun e => hnd.1 (e ▸ hw)))
+      simp only [List.mem_append, List.mem_map, ih0, ih1, eval_restrict _ _ _ _ n ho]
+      constructor
+      · rintro (⟨r, ⟨ρ, hρ, rfl⟩, rfl⟩ | ⟨r, ⟨ρ, hρ, rfl⟩, rfl⟩)
+        · exact ⟨upd ρ v false, hρ, by simp [hmap]⟩
+        · exact ⟨upd ρ v true, hρ, by simp [hmap]⟩
+      · rintro ⟨ρ, hρ, rfl⟩
+        have hupd : upd ρ v (ρ v) = ρ := by funext w; simp only [upd]; split <;> simp_all
+        cases hv : ρ v
+        · have h0 : upd ρ v false = ρ := by rw [← hv]; exact hupd
+          exact Or.inl ⟨vs.map ρ, ⟨ρ, by rw [h0]; exact hρ, rfl⟩, by simp [hv]⟩
+        · have h1 : upd ρ v true = ρ := by rw [← hv]; exact hupd
+          exact Or.inr ⟨vs.map ρ, ⟨ρ, by rw [h1]; exact hρ, rfl⟩, by simp [hv]⟩
+
+theorem sorted_labelRows : ∀ (vs : List Nat) (b : BDD), (labelRows vs b).Pairwise RowLt := by
+  intro vs
+  induction vs with
+  | nil => intro b; simp only [labelRows]; split <;> simp
+  | cons v vs ih =>
+    intro b
+    simp only [labelRows]
+    split
+    · simp
+    · rw [List.pairwise_append]
+      refine ⟨?_, ?_, ?_⟩
+      · exact List.pairwise_map.2 ((ih _).imp (fun h => List.Lex.cons h))
+      · exact List.pairwise_map.2 ((ih _).imp (fun h => List.Lex.cons h))
+      · intro a ha c hc
+        obtain ⟨a', _, rfl⟩ := List.mem_map.1 ha
+        obtain ⟨c', _, rfl⟩ := List.mem_map.1 hc
+        exact List.Lex.rel (by decide)
+
+theorem rowLt_irrefl : ∀ (r : List Bool), ¬ RowLt r r
+  | [], h => by cases h
+  | x :: r, h => by
+    cases h with
+    | cons h => exact rowLt_irrefl r h
+    | rel h => exact absurd h (by cases x <;> decide)
+
+theorem nodup_labelRows (vs : List Nat) (b : BDD) : (labelRows vs b).Nodup :=
+  (sorted_labelRows vs b).imp (fun {a c} (h : RowLt a c) (e : a = c) => rowLt_irrefl c (e ▸ h))
+
+theorem nodup_map_on {α β : Type} {f : α → β} : ∀ (l : List α),
+    (∀ a ∈ l, ∀ b ∈ l, f a = f b → a = b) → l.Nodup → (l.map f).Nodup
+  | [], _, _ => by simp
+  | x :: r, hinj, hnd => by
+    rw [List.nodup_cons] at hnd
+    rw [List.map_cons, List.nodup_cons]
+    refine ⟨?_, nodup_map_on r (fun a ha b hb => hinj a (List.mem_cons_of_mem _ ha) b (List.mem_cons_of_mem _ hb)) hnd.2⟩
+    intro hm
+    obtain ⟨y, hy, e⟩ := List.mem_map.1 hm
+    have := hinj y (List.mem_cons_of_mem _ hy) x (by simp) e
+    subst this
+    exact hnd.1 hy
+
+theorem getD_map_idxOf {sv : List Nat} (ρ : Nat → Bool) {v : Nat} (hv : v ∈ sv) :
+    (sv.map ρ).getD (sv.idxOf v) false = ρ v := by
+  induction sv with
+  | nil => simp at hv
+  | cons x r ih =>
+    simp only [List.map_cons, List.idxOf_cons]
+    by_cases hx : x = v
+    · subst hx; simp
+    · have : v ∈ r := by rcases List.mem_cons.1 hv with h | h; exact absurd h.symm hx; exact h
+      have hb : (x == v) = false := by simp [hx]
+      simp only [hb, cond_false, List.getD_cons_succ]
+      exact ih this
+
+/-- `findall(Vs, labeling(Vs), Rows)`: exactly the assignments of `vs` that extend to a model. -/
+theorem mem_labeling {n : Nat} {vs : List Nat} {b : BDD} (ho : OrdAbove n b) (hr : Reduced b) (row : List Bool) :
+    row ∈ labeling vs b ↔ ∃ ρ, b.eval ρ = true ∧ row = vs.map ρ := by
+  simp only [labeling, List.mem_map, mem_labelRows (sortU vs) b ho hr (nodup_sortU vs)]
+  have key : ∀ ρ : Nat → Bool, (vs.map fun v => ((sortU vs).map ρ).getD ((sortU vs).idxOf v) false) = vs.map ρ :=
+    fun ρ => List.map_congr_left (fun v hv => getD_map_idxOf ρ (mem_sortU.2 hv))
+  constructor
+  · rintro ⟨r, ⟨ρ, hρ, rfl⟩, rfl⟩
+    exact ⟨ρ, hρ, key ρ⟩
+  · rintro ⟨ρ, hρ, rfl⟩
+    exact ⟨_, ⟨ρ, hρ, rfl⟩, key ρ⟩
+
+theorem nodup_labeling {n : Nat} {vs : List Nat} {b : BDD} (ho : OrdAbove n b) (hr : Reduced b) :
+    (labeling vs b).Nodup := by
+  simp only [labeling]
+  refine nodup_map_on _ ?_ (nodup_labelRows _ _)
+  intro r1 h1 r2 h2 e
+  obtain ⟨ρ1, _, rfl⟩ := (mem_labelRows (sortU vs) b ho hr (nodup_sortU vs) r1).1 h1
+  obtain ⟨ρ2, _, rfl⟩ := (mem_labelRows (sortU vs) b ho hr (nodup_sortU vs) r2).1 h2
+  have k1 : ∀ ρ : Nat → Bool, (vs.map fun v => ((sortU vs).map ρ).getD ((sortU vs).idxOf v) false) = vs.map ρ :=
+    fun ρ => List.map_congr_left (fun v hv => getD_map_idxOf ρ (mem_sortU.2 hv))
+  rw [k1, k1] at e
+  apply List.map_congr_left
+  intro v hv
+  exact List.map_inj_left.1 e v (mem_sortU.1 hv)
 
 end Scryer.BDD
